@@ -354,11 +354,12 @@ func c03GenApi(o graphOpts) func(c *engine.C) engine.Case {
 		}
 		var di map[string]string
 		if c.Bool("di") {
-			// the class of node 1 is an injected interface implemented by p.Impl, whose like-named method calls node 0
+			// the class of node 1 is an injected interface implemented by p.Impl, whose like-named method calls the last node
 			t := g.Model.Methods[1%o.N]
 			di = map[string]string{t.Pkg + "." + t.Class: "p.Impl"}
+			last := g.Model.Methods[o.N-1]
 			g.Model.Methods = append(g.Model.Methods, GMethod{Pkg: "p", Class: "Impl", Name: t.Name,
-				Calls: []GCall{{g.Model.Methods[0].Pkg, g.Model.Methods[0].Class, g.Model.Methods[0].Name}}})
+				Calls: []GCall{{last.Pkg, last.Class, last.Name}}})
 			c.Tag("di")
 		}
 		return func() engine.Result { return checkApiGraph(g, apis, di) }
@@ -451,6 +452,21 @@ func checkApiGraph(g genGraph, apis []api_domain.RestAPI, di map[string]string) 
 		}
 		if sizes[i].Caller != a.BuildFullMethodPath() || sizes[i].URI != a.Uri || sizes[i].HTTPMethod != a.HttpMethod {
 			res.Violations = append(res.Violations, engine.V("api-size", "row-identity", "size row %d does not describe api %d", i, i))
+		}
+	}
+	// exactness per API whenever its unfolded call tree (after DI substitution) fits the measured budget
+	if B := calibrateBudget(); !g.Overload && B > 0 {
+		for _, a := range apis {
+			root := a.BuildFullMethodPath()
+			if T := treeInternal(union, root, B); T <= B {
+				for src := range reach(union, root) {
+					for _, dst := range union[src] {
+						if !got[Edge{src, dst}] {
+							res.Violations = append(res.Violations, engine.V("exactness", "reachable-edge-missing", "api %s: call tree has %d internal nodes (budget %d) but reachable edge %q -> %q is missing (di=%v)", root, T, B, src, dst, di))
+						}
+					}
+				}
+			}
 		}
 	}
 	// root callees for each API
